@@ -11,6 +11,19 @@ Requests to a target (``Target.ask(lines)``): the lines of CODEC_PROTOCOL.md wit
 the type index, plus
     rt <idx> <V>      -> ok <hex> <V'> <consumed> <hex2>     in-memory round trip: serialize, deserialize the produced
                                                              bytes into a fresh object, dump it, serialize it again
+    dereuse <idx> <hexA> <hexB>  -> as ``de <hexB>``         A is decoded into an object first (outcome ignored), then B into
+                                                             the SAME object (C: same struct, C++: same instance incl. its
+                                                             containers / variant, Python: a second call)
+    rtreuse <idx> <V1> | <V2>    -> as ``rt <V2>``           V1 makes the round trip first; V2 is then parsed / assigned into the
+                                                             SAME source object and decoded into the SAME destination object
+    api <idx>                    -> ok <7 return codes>      C only: NULL-argument conventions of the generated functions
+``de`` is answered for the primary spelling of the call and compared, inside the shim / worker, with other spellings of
+the same input (C, C++: the representation as a sub-range of a larger buffer with other data around it; C: NULL buffer of
+size 0 and _initialize_ for the empty input; Python: fragment lists, see codec_pyworker.py); ``ser``/``rt`` on Python
+likewise for the spellings of primitive arrays.  A spelling that answers differently is reported as
+``err:spelling:<name>:<its answer>``.
+Floats: a NaN token reaches a `float` storage field bit by bit (sign, leading 23 mantissa bits of the binary64 token, quiet
+bit as given), so that signalling NaNs / NaNs with payload only in the low mantissa bits exist in memory.
 Answers beyond the protocol: ``n/a`` (request not expressible on this target: see codec_pyworker.py; C++: option
 index >= option count), ``crash:<rc>`` (the process died on this request; it is restarted for the next one),
 ``err:overrun`` (guard bytes around the output buffer were modified), ``err:invalid-argument``.
@@ -148,8 +161,8 @@ class BatchProcessTarget(Target):
 class _PyWorker:
     """One worker subprocess of the Python target."""
 
-    def __init__(self, outdir, numpy_dir, optimize=False, ndarray=False):
-        self.outdir, self.numpy_dir, self.optimize, self.ndarray = outdir, numpy_dir, optimize, ndarray
+    def __init__(self, outdir, numpy_dir, optimize=False, ndarray=False, alts=None):
+        self.outdir, self.numpy_dir, self.optimize, self.ndarray, self.alts = outdir, numpy_dir, optimize, ndarray, alts
         self.proc = None
 
     def _start(self):
@@ -159,6 +172,8 @@ class _PyWorker:
         env.pop("PYTHONOPTIMIZE", None)
         if self.ndarray:
             env["CODEC_PY_NDARRAY"] = "1"
+        if self.alts is not None:       # (alternative array spellings per ser/rt, alternative fragment spellings per de/rt)
+            env["CODEC_PY_ALT_ARRAY"], env["CODEC_PY_ALT_FRAG"] = str(self.alts[0]), str(self.alts[1])
         self.proc = subprocess.Popen([common.PY] + (["-O"] if self.optimize else []) + [str(HERE / "codec_pyworker.py"), str(self.outdir / "types.json")],
                                      stdin=subprocess.PIPE, stdout=subprocess.PIPE, stderr=subprocess.PIPE, env=env, text=True, bufsize=1)
         first = self.proc.stdout.readline().strip()
@@ -224,13 +239,15 @@ class PyTarget(Target):
     lang = "py"
     n_workers = 4
 
-    def __init__(self, ns, outdir, numpy_dir, optimize=False, ndarray=False):
+    def __init__(self, ns, outdir, numpy_dir, optimize=False, ndarray=False, alts=None):
         """optimize: run the generated code under `python -O` (assert statements do not exist there);
-        ndarray: hand primitive arrays to the setters as ndarrays of the exact dtype (zero-copy fast path)."""
+        ndarray: hand primitive arrays to the setters as ndarrays of the exact dtype (zero-copy fast path);
+        alts: (n, m) = every ser/rt also under n alternative spellings of its primitive arrays, every de/rt also under m
+        alternative spellings of the fragment list (None: the worker's defaults 2, 3; see codec_pyworker.py)."""
         name = "py" + ("/-O" if optimize else "") + ("+ndarray" if ndarray else "")
-        super().__init__(name, {"lang": "py", "python_optimize": optimize, "ndarray_inputs": ndarray})
+        super().__init__(name, {"lang": "py", "python_optimize": optimize, "ndarray_inputs": ndarray, "alternative_spellings": list(alts) if alts else "default"})
         self.ns, self.outdir, self.numpy_dir = ns, pathlib.Path(outdir), numpy_dir
-        self.optimize, self.ndarray = optimize, ndarray
+        self.optimize, self.ndarray, self.alts = optimize, ndarray, alts
         self.workers = []
 
     def build(self):
@@ -248,7 +265,7 @@ class PyTarget(Target):
     def ask(self, lines, timeout=900):
         """Requests are dealt to a few worker processes (interleaved, so that the expensive types spread out)."""
         if not self.workers:
-            self.workers = [_PyWorker(self.outdir, self.numpy_dir, self.optimize, self.ndarray) for _ in range(self.n_workers)]
+            self.workers = [_PyWorker(self.outdir, self.numpy_dir, self.optimize, self.ndarray, self.alts) for _ in range(self.n_workers)]
         k = min(len(self.workers), max(1, len(lines) // 50))
         shares = [list(range(i, len(lines), k)) for i in range(k)]
         answers = [None] * len(lines)
@@ -626,7 +643,7 @@ _C_HANDLER = r'''
             }                                                                                                         \
             de_answer_##IDX(o2, in, n);                                                                               \
             free(o2);                                                                                                 \
-            (void) de_alternatives_##IDX(in, n);                                                                      \
+            if (!is_dereuse) { (void) de_alternatives_##IDX(in, n); }   /* fresh destinations: only comparable with `de` */ \
             free(in);                                                                                                 \
             return 1;                                                                                                 \
         }                                                                                                             \
